@@ -2,7 +2,7 @@
 import os
 import re
 
-from engine import cc, cfg, lib
+from engine import facts, cc, cfg, lib
 from engine.facts import erase, short_loc, CACHE
 from engine.lib import A, qe
 from engine.auto import cond_shape
@@ -134,9 +134,9 @@ def c07e(ctx):
         pos.add("REQUIRE_CALL", ("W", "T0"), sig)
     cfgs = [("clang++", "c++17")] if ctx.tier == "quick" else [(c, s) for c in ("clang++", "g++") for s in ("c++14", "c++20")]
     jobs, meta = [], []
-    os.makedirs(os.path.join(CACHE, "gen"), exist_ok=True)
+    os.makedirs(facts.gen_dir(), exist_ok=True)
     for p in progs + [pos]:
-        path = os.path.join(CACHE, "gen", p.tag + ".cpp")
+        path = os.path.join(facts.gen_dir(), p.tag + ".cpp")
         with open(path, "w") as fh:
             fh.write(p.source())
         for c, s in cfgs:
